@@ -116,6 +116,17 @@ def operLines (pos : Pos) (op : Op4) (indent tab : Int) : Option (List String ×
     let un : Int := if indent ≤ 0 then 0 else unindent
     some (strs.zipIdx.map (fun (s, i) => spaces (((i : Int) - un) * tab + indent') ++ s), diff)
 
+/-- the loop of `write_uml_blocks`: the items one after the other, the indent carried along -/
+def itemsLinesWith (f : Item → Int → Option (List String × Int)) (tab : Int) : List Item → Int → Option (List String)
+  | [], _ => some []
+  | it :: rest, indent =>
+    match f it indent with
+    | none => none
+    | some (ls, diff) =>
+      match itemsLinesWith f tab rest (indent + diff * tab) with
+      | none => none
+      | some more => some (ls ++ more)
+
 mutual
 /-- `PUMLGraph.write_uml_blocks` -/
 def graphLines : Nat → PGraph → Int → Int → Option (List String)
@@ -127,16 +138,8 @@ def graphLines : Nat → PGraph → Int → Int → Option (List String)
       | some [] => some []
       | some (head :: _) =>
         let items := orderNodes g (dfsSuccessors g head) (g.nodes.length + 1) head
-        itemsLines fuel g items indent tab
-def itemsLines : Nat → PGraph → List Item → Int → Int → Option (List String)
-  | _, _, [], _, _ => some []
-  | fuel, g, it :: rest, indent, tab =>
-    match itemLines fuel g it indent tab with
-    | none => none
-    | some (ls, diff) =>
-      match itemsLines fuel g rest (indent + diff * tab) tab with
-      | none => none
-      | some more => some (ls ++ more)
+        itemsLinesWith (fun it ind => itemLines fuel g it ind tab) tab items indent
+/-- one node (`write_uml_blocks` of the node classes) or a PATH node -/
 def itemLines : Nat → PGraph → Item → Int → Int → Option (List String × Int)
   | _, _, .path op, indent, tab => operLines .path op indent tab
   | fuel, g, .node i, indent, tab =>
